@@ -121,6 +121,9 @@ class ModelManager:
         leaves_t, tree_t = jax.tree_util.tree_flatten(args.item, is_leaf=_is_leaf)
         if len(leaves_s) != len(leaves_t):
             raise ValueError(f"tree structure mismatch on restore: saved {len(leaves_s)} leaves, template {len(leaves_t)}")
+        # a None leaf in the template yields None whatever was saved there (observed with the real
+        # StandardRestore: a policy array saved by a VI-family solver comes back as None)
+        leaves_s = [None if t is None else x for x, t in zip(leaves_s, leaves_t)]
         return jax.tree_util.tree_unflatten(tree_t, leaves_s)
 
     def close(self):
@@ -158,7 +161,7 @@ def validate_against_real_orbax(schedules, tmp_root):
             Store.reset()
             model = ModelManager(d, ModelOptions(max_to_keep=sc["max_to_keep"], enable_async_checkpointing=sc["async_"]))
             for i, step in enumerate(sc["steps"]):
-                tree = {"values": jnp.arange(3.0) + step, "info": {"iteration": step, "tag": float(i)}}
+                tree = {"values": jnp.arange(3.0) + step, "policy": jnp.arange(3) + i, "info": {"iteration": step, "tag": float(i)}}
                 real.save(step, args=ocp.args.StandardSave(tree))
                 model.save(step, args=StdSave(tree))
             real.wait_until_finished()
@@ -168,10 +171,10 @@ def validate_against_real_orbax(schedules, tmp_root):
                 problems.append(f"schedule {sc}: real steps {rs} model steps {ms}")
             else:
                 for step in rs:
-                    tmpl = {"values": jnp.zeros(3), "info": {"iteration": 0, "tag": 0.0}}
+                    tmpl = {"values": jnp.zeros(3), "policy": None, "info": {"iteration": 0, "tag": 0.0}}
                     a = real.restore(step, args=ocp.args.StandardRestore(tmpl))
                     b = model.restore(step, args=StdRestore(tmpl))
-                    same = np.array_equal(np.asarray(a["values"]), np.asarray(b["values"])) and \
+                    same = (a["policy"] is None) == (b["policy"] is None) and np.array_equal(np.asarray(a["values"]), np.asarray(b["values"])) and \
                         int(a["info"]["iteration"]) == int(b["info"]["iteration"]) and float(a["info"]["tag"]) == float(b["info"]["tag"])
                     if not same:
                         problems.append(f"schedule {sc}: step {step} content differs: real {a} model {b}")
